@@ -95,6 +95,9 @@ Candidates ==
     \cup Unary("Filter", [ar |-> 1, id |-> 6, thr |-> 2 * Q])
     \cup Unary("Crop", [id |-> 1, lo |-> P(1, 0, 0), hi |-> P(5, 3, 3)])
     \cup Unary("Repeat", [trss |-> <<TRS1, TRS2>>])
+    \cup Unary("Normalize", [id |-> 1]) \cup Unary("Normalize", [id |-> 2])
+    \cup Unary("FlatNormals", Z) \cup Unary("SmoothNormals", Z)
+    \cup Unary("Laplacian", [id |-> 1, iters |-> 1]) \cup Unary("Laplacian", [id |-> 1, iters |-> 3])
     \cup NoRes("Export", [fmt |-> "ply-le"]) \cup NoRes("Export", [fmt |-> "obj"])
     \cup NoRes("Export", [fmt |-> "glb"]) \cup NoRes("Export", [fmt |-> "stl"])
     \cup NoRes("Scan", Z)
@@ -104,7 +107,13 @@ Init == pool = [s \in Slots |-> NullMesh] /\ hist = <<>>
 Do(st) ==
     /\ st.op \in Ops
     /\ Pre(st, pool)
-    /\ LET r == Expect(st, pool) IN
+    /\ LET e == Expect(st, pool)
+           \* off-lattice results are not representable: the generator continues with a placeholder
+           \* (target attribute zeroed); the trace judge re-synchronises on the observed value anyway
+           r == IF st.op \in AttrOps /\ IsMesh(e)
+                THEN SetAttr(e, 3, AttrTarget(st), ZeroData(3, AttrLen(e)))
+                ELSE e
+       IN
          /\ IF st.dst = 0 THEN pool' = pool
             ELSE IsMesh(r) /\ Len(r.idx) <= 12 /\ pool' = [pool EXCEPT ![st.dst] = r]
     /\ hist' = Append(hist, st)
